@@ -35,7 +35,9 @@ type LaplaceDistribution struct {
 /* -------------------------------------------------------------------------- */
 
 func NewLaplaceDistribution(mu, sigma Scalar) (*LaplaceDistribution, error) {
-
+  if sigma.GetFloat64() <= 0.0 {
+    return nil, fmt.Errorf("invalid parameters")
+  }
   result := LaplaceDistribution{}
   result.Mu    = mu   .CloneScalar()
   result.Sigma = sigma.CloneScalar()
@@ -68,13 +70,16 @@ func (dist *LaplaceDistribution) ScalarType() ScalarType {
 
 func (dist *LaplaceDistribution) LogPdf(r Scalar, x ConstScalar) error {
 
+  // t = log(2 sigma)
+  t := dist.Sigma.CloneScalar()
+  t.Mul(t, dist.c2)
+  t.Log(t)
+
   r.Sub(x, dist.Mu)
   r.Abs(r)
   r.Div(r, dist.Sigma)
   r.Neg(r)
-  r.Exp(r)
-  r.Div(r, dist.Sigma)
-  r.Div(r, dist.c2)
+  r.Sub(r, t)
 
   return nil
 }
